@@ -71,12 +71,18 @@ def thermal_compiled_case(cooling):
     case = {"thermal_compiled": list(cooling)}
     with quiet():
         reacs = [Reaction(list(r), list(p_), -1.0, -1.0, 1e-10, 0.0, 0.0, ReactionType.GAS_TWOBODY, i + 1) for i, (r, p_) in enumerate(oc.PRIMORDIAL)]
+        # (species are laid out by how often they react; six more reactions of atomic hydrogen put H behind the electron,
+        # so that the per-species tables of the helpers are exercised with the electron in the middle of the layout)
+        for k_, (r_, p_) in enumerate(((["H", "oH2"], ["H", "H", "H"]), (["H", "H"], ["oH2"]), (["H", "He+"], ["H+", "He"]), (["H", "He++"], ["H+", "He+"]), (["H", "H+"], ["H+", "H"]), (["H", "He"], ["He", "H"]))):
+            reacs.append(Reaction(list(r_), list(p_), -1.0, -1.0, 1e-10, 0.0, 0.0, ReactionType.GAS_TWOBODY, 91 + k_))
         net = Network(reacs, cooling=list(cooling))
+        if [s_.name for s_ in net.species][-1] in ("e-", "E"):
+            raise HarnessError("thermal_compiled_case: the electron is still the last species")
         files = render(net, "dense", OR.TEMPLATES_CVODE)
     mac = read_macros(files["include/naunet_macros.h"])
     neq, nsp = mac.value("NEQUATIONS"), mac.value("NSPECIES")
     slot = {n_[4:]: mac.value(n_) for n_ in mac.text if n_.startswith("IDX_") and not n_.startswith("IDX_ELEM_")}
-    alias = {"H": "HI", "H+": "HII", "He": "HeI", "He+": "HeII", "He++": "HeIII", "e-": "eM"}
+    alias = {"H": "HI", "H+": "HII", "He": "HeI", "He+": "HeII", "He++": "HeIII", "e-": "eM", "oH2": "oH2I"}
     yvals = [[0.5 + ((7 * i + 3 * g) % 11) / 8.0 for i in range(neq)] for g in range(3)]
     for yv, T in zip(yvals, (8.0e3, 2.5e4, 1.2e4)):
         yv[slot["TGAS"]] = T
@@ -97,7 +103,7 @@ def thermal_compiled_case(cooling):
                 term *= yv[slot[alias[x]]]
             tot += term
         # the other helpers behind the symbols: mean molecular weight = sum A_i y_i / sum y_i, adiabatic index 5/3
-        amass = {"H": 1.0, "H+": 1.0, "He": 4.0, "He+": 4.0, "He++": 4.0, "e-": 0.0}
+        amass = {"H": 1.0, "H+": 1.0, "He": 4.0, "He+": 4.0, "He++": 4.0, "e-": 0.0, "oH2": 2.0}
         mu_ref = sum(amass[x] * yv[slot[alias[x]]] for x in amass) / npar
         if not (abs(r["mu"] - mu_ref) <= 1e-12 * mu_ref) or not (abs(r["gamma_helper"] - 5.0 / 3.0) <= 1e-15):
             viols.append((f"C01:thermal-compiled:helper", f"cooling {cooling}, state {g}: GetMu returns {r['mu']!r} (mass-number weighted mean {mu_ref!r}), GetGamma returns {r['gamma_helper']!r} (5/3)", case))
